@@ -473,9 +473,26 @@ def run_init_state(ck, s, regime, ref, got1, rng):
         judge(ck, "reset_true", regime, s, as_np(out), ref, ref, "second_call_of_reset_module_not_from_initial_state")
 
 
+def probe_documented_init_layout(ck):
+    """Recorded, not judged: forward's docstring gives init_state entries the shape (B, H_in); the module stores
+    and accepts (B, 1, H).  The note says what the (B, H) layout does for B = 2, F = 3 (see ASSUME)."""
+    B, F = 2, 3
+    dt = torch.full((B, F, 1), 0.1, dtype=torch.float64)
+    gy = torch.ones(B, F, 3, dtype=torch.float64) * 0.1
+    st = {"pos": torch.zeros(B, 3, dtype=torch.float64), "rot": pp.identity_SO3(B, dtype=torch.float64),
+          "vel": torch.zeros(B, 3, dtype=torch.float64)}
+    try:
+        pp.module.IMUPreintegrator(reset=True, gravity=0.0).double()(dt, gy, gy, init_state=st)
+        ck.note("init_state_layout_(B,H)_as_in_docstring", "accepted")
+    except Exception as e:  # noqa
+        ck.note("init_state_layout_(B,H)_as_in_docstring", "raises " + type(e).__name__ + " (not judged)")
+
+
 def run(ck):
     thorough = ck.tier == "thorough"
     rng = ck.rng("c16")
+    if ck.shard == 0:
+        probe_documented_init_layout(ck)
     if thorough:
         Fs = list(range(1, 201))
     else:
